@@ -162,7 +162,7 @@ Proof.
     destruct (HW s ms Hs) as [HI Hfil].
     apply with_slot_gen_spec with (ms := ms); [exact Hs|]. intros _. rewrite Hfil.
     eapply wp_conseq; [apply (map_insert_spec c k kid v); exact HI| |].
-    + intros res s1 (HI1 & Hres). unfold step_post. split; [apply WInv_store; assumption|].
+    + intros res s1 (HI1 & Hres & _). unfold step_post. split; [apply WInv_store; assumption|].
       rewrite Eop. cbn [spec_rel]. exists (rt_abs (m_rt ms)). split; [apply wabs_lookup; exact Hs|]. left.
       rewrite wabs_store. cbn [load s_rt] in Hres.
       destruct (rt_abs (m_rt ms) !! k) as [e|]; destruct Hres as [-> ->]; split; reflexivity.
@@ -265,6 +265,51 @@ Proof.
     + intros j m. unfold del_slot, store. cbn [w_maps]. intros H. apply lookup_delete_Some in H as [Hne H].
       rewrite lookup_insert_ne in H by congruence. eapply HW; eauto.
     + rewrite Eop. cbn [spec_rel]. split; [reflexivity|]. rewrite wabs_delete, wabs_store. apply delete_insert_delete.
+Qed.
+
+
+(* ------------------------------------------------------------------ histories *)
+
+(* the reference run: every recorded outcome is one the reference allows; an injected user
+   panic (only possible under a fuse) leaves the reference free (C07 says what holds then) *)
+Inductive spec_runs : gmap N (gmap N elem) -> list op -> list out -> gmap N (gmap N elem) -> Prop :=
+| sr_nil σ : spec_runs σ [] [] σ
+| sr_cons σ o r σ1 os rs σ2 :
+    spec_rel σ o r σ1 -> spec_runs σ1 os rs σ2 -> spec_runs σ (o :: os) (r :: rs) σ2
+| sr_user σ o σ1 os rs σ2 :
+    spec_runs σ1 os rs σ2 -> spec_runs σ (o :: os) (OutP PUser :: rs) σ2.
+
+Lemma step_caught_core w t :
+  WInv w -> core_op (t_op t) ->
+  match step_caught c w t with
+  | inl (w', o) => WInv w' /\ (spec_rel (wabs w) (t_op t) o (wabs w') \/ o = OutP PUser)
+  | inr f => benign f
+  end.
+Proof.
+  intros HW Hc. pose proof (step_core w t HW Hc) as H. unfold step_caught.
+  destruct (step c w t) as [o w'|p w'|f]; cbn [wres] in H.
+  - destruct H as [H1 H2]. auto.
+  - destruct H as [[Hp [H1 H2]]|[-> H1]]; auto.
+  - exact H.
+Qed.
+
+Theorem run_core : forall ts w acc,
+  WInv w -> Forall core_op (map t_op ts) ->
+  match run c w ts acc with
+  | inl (w', outs) =>
+      WInv w' /\ exists rs, outs = acc ++ rs /\ spec_runs (wabs w) (map t_op ts) rs (wabs w')
+  | inr f => benign f
+  end.
+Proof.
+  induction ts as [|t ts IH]; intros w acc HW Hall; cbn [run].
+  - split; [exact HW|]. exists []. split; [rewrite app_nil_r; reflexivity|constructor].
+  - cbn [map] in Hall. apply Forall_cons in Hall as [Hc Hall].
+    pose proof (step_caught_core w t HW Hc) as Hs. destruct (step_caught c w t) as [[w1 o]|f]; [|exact Hs].
+    destruct Hs as [HW1 Hrel]. specialize (IH w1 (acc ++ [o]) HW1 Hall).
+    destruct (run c w1 ts (acc ++ [o])) as [[w2 outs]|f]; [|exact IH].
+    destruct IH as (HW2 & rs & -> & Hruns). split; [exact HW2|]. exists (o :: rs).
+    split; [rewrite <- app_assoc; reflexivity|]. cbn [map].
+    destruct Hrel as [Hrel| ->]; [eapply sr_cons; eauto|eapply sr_user; eauto].
 Qed.
 
 End World.
